@@ -560,6 +560,26 @@ def drv_pipeline(tier, rng):
             r['biases'] = [{'name': 'criteriaOmission', 'props': {'ratio': pipeline.PU, 'min': 2, 'max': 2, 'ordering': ordering, 'randomSeed': 29 + sd * 103}}]
             g.append(pcase(r, probe=False, methodref=False, pin=True, group={'id': 'x', 'rel': 'c15freq2', 'p': 'C15', 'ordering': ordering}))
         groups.append(g)
+    # ... for other numbers of criteria too: two criteria (1 : 4, first pick) and four criteria (1 : 4 : 16 : 64, second pick)
+    for ordering in ('weakestByProbability', 'strongestByProbability'):
+        for m in (2, 4):
+            cs = ['c%d' % (i + 1) for i in range(m)]
+            base = pipeline.gen_data(rng, 'majorityHeuristic', n=2, m=m, extra=0, declared=False)
+            base['criteria'] = [{'id': c, 'type': 'gain'} for c in cs]
+            base['methodParameters'] = {'weights': {c: (4 ** i) * pipeline.PU for i, c in enumerate(cs)}, 'drawResolution': 'allow'}
+            g = []
+            for sd in range(300 if tier == 'quick' else 3000):
+                r = copy.deepcopy(base)
+                if m == 2:
+                    r['biases'] = [{'name': 'criteriaOmission', 'props': {'ratio': pipeline.PU // 2, 'min': 1, 'max': 1, 'ordering': ordering, 'randomSeed': 31 + sd * 107}}]
+                    grp = {'id': 'x', 'rel': 'c15freqM', 'p': 'C15', 'ordering': ordering, 'crits': cs}
+                else:
+                    r['biases'] = [{'name': 'criteriaOmission', 'props': {'ratio': pipeline.PU // 2, 'min': 2, 'max': 2, 'ordering': ordering, 'randomSeed': 37 + sd * 109}}]
+                    weak = ordering == 'weakestByProbability'
+                    grp = {'id': 'x', 'rel': 'c15freq2M', 'p': 'C15', 'ordering': ordering,
+                           'first': 'c1' if weak else 'c4', 'second': 'c2' if weak else 'c3', 'third': 'c3' if weak else 'c2'}
+                g.append(pcase(r, probe=False, methodref=False, pin=True, group=grp))
+            groups.append(g)
     # seeded reference-criterion strategies over many seeds (C18): importance 1 : 4 : 16, ranges 1 : 2 : 4 identify the reference
     for strategy in ('randomUniform', 'randomWeighted'):
         P = pipeline.PU
